@@ -3,6 +3,7 @@ CONSTANTS
   Orders <- OrdersAll
   Dts <- DtsQ
   Targets <- TargU
+  TsTargets <- TargU
   MaxTs = 3
   PublicQueue = FALSE
   LeftRenormSite = 0
